@@ -313,6 +313,18 @@ def generate(prop, rng, tier):
                     "M2": [rng.choice([0.03, 0.1, 0.2]) for _ in els], "per_element": per_element,
                     "rows": rows, "columns": rng.choice(["from_to", "range_mean"]),
                     "loops": [[float(rng.randint(-300, 100)), float(rng.randint(20, 400))] for _ in rows]}
+        if per_element and rows[0][0] is not None and rng.random() < 0.4:
+            parts = []
+            for _e in els:
+                cutsR = sorted(rng.sample([-3.0, -1.0, 0.0, 0.5], rng.randint(0, 2)))
+                bounds = [-math.inf] + cutsR + [1.0]
+                segs = [[bounds[q], bounds[q + 1], rng.choice([0.05, 0.1, 0.2, 0.3, 0.4, 0.5])] for q in range(len(bounds) - 1)]
+                segs.append([1.0, math.inf, rng.choice([0.0, 0.0, 0.05])])
+                if rng.random() < 0.5:
+                    segs = segs[-1:] + segs[:-1]          # (1, inf) listed first, as FKM-Goodman does
+                parts.append(segs)
+            tr["ms"]["partitions"] = parts
+            tr["ms"]["per_element"] = True
         extra = []
         for _ in range(rng.randint(2, 5)):
             if rng.random() < 0.55:
@@ -706,6 +718,41 @@ def goodman_scalar(sa, sm, M, M2, R_goal):
     return sa
 
 
+def haigh_scalar(sa, sm, segments, R_goal):
+    """Transformation of one loop along the iso-damage polyline of an arbitrary gap-free Haigh diagram.
+    segments: [(R_left, R_right, M)] covering (-inf, 1) and (1, inf).  In the plane (mean, amplitude) a ray
+    R = const is mean = c * amplitude with c = (1+R)/(1-R): R in (1, inf] <-> c in (-inf, -1], R in [-inf, 1) <-> c in [-1, inf)."""
+    def c_of(R):
+        if R == math.inf or R == -math.inf:
+            return -1.0
+        if R == 1.0:
+            return math.inf
+        return (1.0 + R) / (1.0 - R)
+    regions = []
+    for left, right, m in segments:
+        if left >= 1.0:                         # R > 1: c from -inf (R -> 1+) to -1 (R -> inf)
+            lo = -math.inf if left == 1.0 else c_of(left)
+            hi = c_of(right)
+        else:
+            lo, hi = c_of(left), c_of(right)
+        regions.append((lo, hi, m))
+    regions.sort()
+    cg = c_of(R_goal)
+    c = sm / sa
+    for _ in range(2 * len(regions) + 2):
+        if c < cg:
+            lo, hi, m = next(r for r in regions if r[0] <= c < r[1])
+            target = min(cg, hi)
+        elif c > cg:
+            lo, hi, m = next(r for r in regions if r[0] < c <= r[1])
+            target = max(cg, lo)
+        else:
+            return sa
+        sa2 = (sa + m * sm) / (1.0 + m * target)
+        sa, sm, c = sa2, target * sa2, target
+    return sa
+
+
 class MsHistory:
     """B4 as a history: one kept HaighDiagram, one kept collective object that is
     modified in place by its owner between transformations."""
@@ -717,12 +764,25 @@ class MsHistory:
         self.rows = [list(r) for r in spec["rows"]]
         self.loops = [list(l) for l in spec["loops"]]
         els = spec["elements"]
-        if spec["per_element"]:
-            sens = pd.DataFrame({"M": spec["M"], "M2": spec["M2"]}, index=pd.Index(els, name="element_id"))
+        self.partitions = spec.get("partitions")
+        if self.partitions:
+            self.partitions = [[(float(l), float(r), float(m)) for l, r, m in segs] for segs in self.partitions]
+            # per-element Haigh diagrams with different R partitions (validated per element by pyLife)
+            tuples, vals = [], []
+            for el, segs in zip(els, self.partitions):
+                for left, right, m in segs:
+                    tuples.append((el, pd.Interval(float(left), float(right))))
+                    vals.append(float(m))
+            sens = pd.Series(vals, index=pd.MultiIndex.from_tuples(tuples, names=["element_id", "R"]))
+            self.sens = sens.copy()
+            self.hd = MST.HaighDiagram(sens)
         else:
-            sens = pd.Series({"M": spec["M"][0], "M2": spec["M2"][0]})
-        self.sens = sens.copy()
-        self.hd = MST.HaighDiagram.fkm_goodman(sens)
+            if spec["per_element"]:
+                sens = pd.DataFrame({"M": spec["M"], "M2": spec["M2"]}, index=pd.Index(els, name="element_id"))
+            else:
+                sens = pd.Series({"M": spec["M"][0], "M2": spec["M2"][0]})
+            self.sens = sens.copy()
+            self.hd = MST.HaighDiagram.fkm_goodman(sens)
         self.coll = self._frame()
 
     def _index(self):
@@ -736,6 +796,13 @@ class MsHistory:
         if self.spec["columns"] == "from_to":
             return pd.DataFrame({"from": fr, "to": to}, index=self._index())
         return pd.DataFrame({"range": [b - a for a, b in zip(fr, to)], "mean": [0.5 * (a + b) for a, b in zip(fr, to)]}, index=self._index())
+
+    def _alone(self, ei, a, w, Rg):
+        import pylife.strength.meanstress as MST
+        hd = MST.HaighDiagram.from_dict({(l, r): m for l, r, m in self.partitions[ei]})
+        one = pd.DataFrame({"range": [w], "mean": [a + 0.5 * w]}, index=pd.Index([0], name="cycle_number"))
+        res = hd.transform(one, Rg)
+        return 0.5 * float(res["range"].iloc[0])
 
     def step(self, st, k, out, log):
         import random as _r
@@ -766,7 +833,7 @@ class MsHistory:
         Rg = float(st["R_goal"])
         before = snapshot(self.coll)
         try:
-            if st.get("via") == "accessor":
+            if st.get("via") == "accessor" and not self.partitions:
                 # the collective's own accessor (a fresh Haigh diagram per call)
                 lc = self.coll.meanstress_transform.fkm_goodman(self.sens.copy(), Rg)
                 res = pd.DataFrame({"range": 2.0 * lc.amplitude})
@@ -789,7 +856,18 @@ class MsHistory:
                     continue
                 if e is None and not self.spec["per_element"] and ei > 0:
                     continue
-                amp = goodman_scalar(sa, sm, self.spec["M"][ei], self.spec["M2"][ei], Rg)
+                if self.partitions:
+                    # C13's statement: the vectorised result equals the element-by-element result.  With
+                    # per-element partitions the element-by-element result is pyLife's own transformation of
+                    # that element alone (fresh diagram, fresh one-loop collective).  The closed form is only
+                    # observed: whether HaighDiagram.transform itself follows the iso-damage polyline for
+                    # every listing order of the intervals is C12's subject, not C13's.
+                    amp = self._alone(ei, a, w, Rg)
+                    closed = haigh_scalar(sa, sm, [tuple(x) for x in self.partitions[ei]], Rg)
+                    if abs(amp - closed) > 1e-9 * max(1.0, abs(closed)):
+                        out.count("observation:element_alone_differs_from_closed_form")
+                else:
+                    amp = goodman_scalar(sa, sm, self.spec["M"][ei], self.spec["M2"][ei], Rg)
                 key = (el if (self.spec["per_element"]) else None, c)
                 want[key] = 2.0 * amp
         try:
